@@ -180,7 +180,8 @@ def run_shard(shard, ctx):
     link, Dx, Dy, Da, Dk, vi = (shard[k] for k in ("link", "Dx", "Dy", "Da", "Dk", "vi"))
     M, b, A, W0 = params(shard, seed)
     N = 2
-    Sx = objs.spd_batch(Dx, N, vi + 1, seed, ("c17p", Dx))
+    diag_prior = vi == 100  # the seed-generic shards use a diagonal-class prior
+    Sx = objs.spd_batch(Dx, N, vi + 1, seed, ("c17p", Dx), diag=diag_prior)
     mx = objs.vec_batch(Dx, N, vi + 1, seed, ("c17p", Dx)) * 0.5
     ys = al.points(N, Dy, salt=vi)
     gaps = {}
@@ -225,7 +226,7 @@ def run_shard(shard, ctx):
             else:
                 rows = list(range(N))
             # ---- (ii) the bound -----------------------------------------------------------------
-            p_x = objs.mk_pdf("GaussianPDF", Sx[rows], mx[rows])
+            p_x = objs.mk_pdf("GaussianDiagPDF" if diag_prior else "GaussianPDF", Sx[rows], mx[rows])
             y = ys[rows]
             with ctx.guard("hetero.bound.call", facts) as g:
                 lb = np.asarray(cond.integrate_log_conditional_y(p_x, y=J(y)))
